@@ -13,13 +13,13 @@ import (
 type EndKind int
 
 const (
-	EndOK         EndKind = iota // harness returned normally
-	EndAssume                    // assume(false): path discarded
-	EndInfeasible                // path condition became unsatisfiable (after unknowns)
-	EndPanic                     // a target panic escaped the harness
-	EndBudget                    // step / decision budget exhausted (unwinding assertion failed)
-	EndUnsupported               // the executor met something it cannot encode
-	EndStopped                   // stopped after violation (stopOnViolation)
+	EndOK          EndKind = iota // harness returned normally
+	EndAssume                     // assume(false): path discarded
+	EndInfeasible                 // path condition became unsatisfiable (after unknowns)
+	EndPanic                      // a target panic escaped the harness
+	EndBudget                     // step / decision budget exhausted (unwinding assertion failed)
+	EndUnsupported                // the executor met something it cannot encode
+	EndStopped                    // stopped after violation (stopOnViolation)
 )
 
 func (k EndKind) String() string {
@@ -81,27 +81,27 @@ type PathResult struct {
 }
 
 type Exec struct {
-	pool      *termPool
-	solver    *Solver
-	prefix    []Decision
-	pos       int
-	decisions []Decision
-	forks     [][]Decision
-	pcSet     map[int]bool
-	nondets   []NondetRec
-	ndCount   map[string]int
-	reached   map[string]bool
-	res       *PathResult
-	steps     int
-	lim       Limits
-	concrete  map[string]uint64 // non-nil: concrete mode
-	observed  []string
-	funcs     map[string]bool
-	unknowns  int
+	pool           *termPool
+	solver         *Solver
+	prefix         []Decision
+	pos            int
+	decisions      []Decision
+	forks          [][]Decision
+	pcSet          map[int]bool
+	nondets        []NondetRec
+	ndCount        map[string]int
+	reached        map[string]bool
+	res            *PathResult
+	steps          int
+	lim            Limits
+	concrete       map[string]uint64 // non-nil: concrete mode
+	observed       []string
+	funcs          map[string]bool
+	unknowns       int
 	infeasibleSeen bool
-	fpBitsN   int
-	summaries int
-	refined   map[int]uint64 // term id -> value the path condition forces
+	fpBitsN        int
+	summaries      int
+	refined        map[int]uint64 // term id -> value the path condition forces
 }
 
 func newExec(solver *Solver, prefix []Decision, lim Limits, concrete map[string]uint64) *Exec {
